@@ -71,18 +71,27 @@ func VH_C14_sweeper() {
 }
 
 // VH_C14_ttl: TTL reports the remaining whole seconds, -1 without deadline.
-//verif:cfg b_ex=1..3_digits_concrete ignorego=1
+//verif:cfg b_ex=1,10,100,3600,1.9,10.5 ignorego=1
 func VH_C14_ttl() {
 	s := vhServer()
-	ex := [4]string{"1", "10", "100", "3600"}
-	exv := [4]int{1, 10, 100, 3600}
-	i := vchoose(4)
+	ex := [6]string{"1", "10", "100", "3600", "1.9", "10.5"}
+	exv := [6]int{1, 10, 100, 3600, 1, 10}
+	i := vchoose(6)
 	vhDo(s, "SET", "k", "a", "EX", ex[i], "POINT", "1", "2")
 	vhDo(s, "SET", "k", "c", "POINT", "3", "4")
 	r, _, err := vhDo(s, "TTL", "k", "a")
 	vassert("C14.ttl_no_error", err == nil)
 	// the clock advances between SET and TTL, so the remaining time is in (ex-1, ex]
-	vassert("C14.ttl_remaining_seconds", r.Integer() == exv[i] || r.Integer() == exv[i]-1)
+	if i < 4 {
+		vassert("C14.ttl_remaining_seconds", r.Integer() == exv[i] || r.Integer() == exv[i]-1)
+	} else {
+		// fractional TTLs count: 1.9 s leaves 1 whole second, 10.5 s leaves 10
+		vassert("C14.ttl_remaining_seconds_fractional", r.Integer() == exv[i])
+	}
+	dl, _ := vhDeadline(s, "k", "a")
+	left := dl - time.Now().UnixNano()
+	want := [6]int64{1000, 10000, 100000, 3600000, 1900, 10500}[i] * 1000000
+	vassert("C14.deadline_is_now_plus_ex", left <= want && left > want-500*1000000)
 	r2, _, _ := vhDo(s, "TTL", "k", "c")
 	vassert("C14.ttl_minus_one_without_deadline", r2.Integer() == -1)
 	vhDo(s, "PERSIST", "k", "a")
